@@ -28,6 +28,15 @@ def getattr_(I, st, ov, attr, ctx):
             return r
     if isinstance(ov, Ref):
         h = st.heap[ov.oid]
+        if h.kind == "obj" and I.getattribute_hook and h.cls and not ctx.get("$raw_getattr") \
+                and attr in h.fields and I.src.is_subclass(h.cls, "Parameter"):
+            # slot reads of a Parameter go through the real Parameter.__getattribute__ (Undefined in
+            # an unbound parameter falls back to _slot_defaults)
+            found = I.src.find_method("Parameter", "__getattribute__")
+            if found is not None:
+                c2 = dict(ctx)
+                c2["$raw_getattr"] = True
+                return I.call(I.bound_method(ov, found), [Conc(attr)], {}, st, c2)
         if h.kind == "obj":
             if attr in h.fields:
                 return [(st, h.fields[attr])]
